@@ -43,7 +43,7 @@ EXPECT_ACTIONS = ['Primitive', 'Stream', 'Session', 'Web', 'Scraper', 'Processor
 # ------------------------------------------------------------------ TLC: design + generation
 ALL_FIXES = ['chunk_readline', 'trailer_lenient', 'ftp_reply_readline', 'ftp_two_finals', 'msdos_short', 'ftp_parent',
              'charset_codec', 'last_modified', 'win_names', 'sitemap_gzip', 'pasv_range', 'deflate_fallback',
-             'perm_listing', 'symlink_create', 'continue_refused']
+             'perm_listing', 'symlink_create', 'continue_refused', 'writer_names']
 
 
 def detect_fixes():
@@ -140,6 +140,17 @@ def detect_fixes():
         from wpull.errors import ProtocolError
         if isinstance(e, ProtocolError):
             fx.add('continue_refused')
+    try:
+        from wpull.writer import BaseFileWriterSession
+        from wpull.errors import ProtocolError
+        try:
+            BaseFileWriterSession.open_file('verif\x00probe', type('R', (), {})())
+        except ProtocolError:
+            fx.add('writer_names')
+        except Exception:
+            pass
+    except Exception:
+        pass
     return sorted(fx)
 
 
@@ -265,6 +276,8 @@ def wire_job(c):
         d = G.page_classes()[cls]
         j.update(data=d['data'], close=d['close'], fail=d['fail'], path=d['path'], argv=d['argv'],
                  cuts=G.cuts_for(d['data'], seg))
+        if d.get('prefiles'):
+            j['prefiles'] = d['prefiles']
     elif ctx == 'robots':
         d = G.robots_classes()[cls]
         j.update(data=d['data'], close=d['close'], fail=d['fail'], cuts=G.cuts_for(d['data'], seg), path=d['path'])
